@@ -213,6 +213,26 @@ def step (cfg : Cfg) (st : St) : Op → St
 
 def run (cfg : Cfg) (h : List Op) (st : St) : St := h.foldl (step cfg) st
 
+/-! ### `timeout` is a public, mutable attribute of the state
+
+The timer carries the deadline it was armed with (`Timer.deadline`); `Timeout.exit` cancels whatever
+is armed in the slot and does not look at `timeout` at all; `Timeout.enter` reads the value valid at
+that moment.  A history may therefore assign `state.timeout` between entries and exits: -/
+
+def Cfg.setTimeout (cfg : Cfg) (s v : Nat) : Cfg :=
+  { cfg with timeout := fun s' => if s' = s then v else cfg.timeout s' }
+
+inductive OpV
+  | op (o : Op)
+  | setT (s v : Nat)       -- `machine.get_state(s).timeout = v`
+  deriving Repr, Inhabited
+
+def stepV (x : Cfg × St) : OpV → Cfg × St
+  | .op o => (x.1, step x.1 x.2 o)
+  | .setT s v => (x.1.setTimeout s v, x.2)
+
+def runV (cfg : Cfg) (h : List OpV) (st : St) : Cfg × St := h.foldl stepV (cfg, st)
+
 /-! ### constructor validation (states.py:82-92, asyncio.py:633-643) -/
 
 inductive CtorResult
